@@ -1,27 +1,384 @@
-//! C12 — not built yet (stub so that the binary links; `./check C12` reports INFRA until replaced).
+//! C12 — modules: imports resolve as documented and files are isolated.
+//! Metamorphic + differential: a program split over files with random import styles behaves like the
+//! reference interpreter says; removing an import / importing a missing name or file is rejected.
+use crate::common::*;
 use arbitrary::Unstructured;
-use vcore::{Check, Labels, Plan, Tier, Verdict};
+use serde::{Deserialize, Serialize};
+use std::collections::BTreeMap;
+use syltmodel::ast::*;
+use syltmodel::gen::Gen;
+use syltmodel::interp::Stop;
+use syltmodel::print::{print_files, ModulePlan, Plan as SurfacePlan};
+use vcore::luarun::{run_lua, LuaOutcome, Terminal, Trace};
+use vcore::{compile, Check, Labels, Outcome, Plan, Project, Stats, Step, Tape, Tier, Verdict};
 
-pub struct Stub;
-pub const CHECK: Stub = Stub;
-pub fn plan(_t: Tier) -> Plan {
-    Plan::new(1, 16)
+pub struct C12;
+pub const CHECK: C12 = C12;
+pub fn plan(t: Tier) -> Plan {
+    Plan::new(t.pick(2_500, 50_000), t.pick(3400, 4600))
 }
-impl Check for Stub {
-    type Case = u8;
+
+#[derive(Clone, Debug, Serialize, Deserialize, PartialEq)]
+pub enum Negative {
+    /// delete the k-th import line of the project (counted over files in order)
+    DropImport(usize),
+    /// add `from <existing module> use zz_nope` to the main file
+    MissingName,
+    /// add `use zz_missing_file` to the main file
+    MissingFile,
+}
+
+#[derive(Clone, Serialize, Deserialize)]
+pub struct Case {
+    pub prog: Program,
+    pub modules: ModulePlan,
+    pub negative: Option<Negative>,
+    #[serde(default)]
+    pub files: BTreeMap<String, String>,
+}
+
+const FILE_POOL: &[&str] = &["libq", "modw", "sub/exports", "sub/inner", "sub/deep/leaf", "other/exports", "zeta"];
+
+fn module_plan(t: &mut Tape, p: &Program) -> ModulePlan {
+    let n_items = p.blobs.len() + p.enums.len() + p.globals.len();
+    let nf = 1 + t.weighted(&[5, 30, 30, 20, 15]);
+    let mut files = vec!["main".to_string()];
+    let mut pool: Vec<&str> = FILE_POOL.to_vec();
+    for _ in 1..nf {
+        if pool.is_empty() {
+            break;
+        }
+        let i = t.below(pool.len());
+        files.push(pool.remove(i).to_string());
+    }
+    let nf = files.len();
+    let mut file_of = Vec::with_capacity(n_items);
+    for i in 0..n_items {
+        let gi = i as isize - (p.blobs.len() + p.enums.len()) as isize;
+        let is_start = gi >= 0 && p.var(p.globals[gi as usize].var).name == "start";
+        file_of.push(if is_start { 0 } else { t.below(nf) });
+    }
+    let style = (0..nf).map(|_| (0..nf).map(|_| t.below(4) as u8).collect()).collect();
+    let rooted = (0..nf).map(|_| (0..nf).map(|_| t.chance(1, 4)).collect()).collect();
+    ModulePlan { files, file_of, style, rooted, paren_lists: t.bool() }
+}
+
+fn plan_of(m: &ModulePlan) -> SurfacePlan {
+    let mut p = SurfacePlan::default();
+    p.modules = Some(m.clone());
+    p
+}
+
+fn import_lines(files: &BTreeMap<String, String>) -> Vec<(String, usize, usize)> {
+    // (file, first line index, number of lines) of every import statement
+    let mut out = Vec::new();
+    for (name, text) in files {
+        let lines: Vec<&str> = text.lines().collect();
+        let mut i = 0;
+        while i < lines.len() {
+            let l = lines[i];
+            if l.starts_with("use ") {
+                out.push((name.clone(), i, 1));
+            } else if l.starts_with("from ") {
+                if l.trim_end().ends_with('(') {
+                    let mut j = i;
+                    while j < lines.len() && lines[j].trim() != ")" {
+                        j += 1;
+                    }
+                    out.push((name.clone(), i, j - i + 1));
+                    i = j;
+                } else {
+                    out.push((name.clone(), i, 1));
+                }
+            } else if !l.trim().is_empty() {
+                break; // imports come first
+            }
+            i += 1;
+        }
+    }
+    out
+}
+
+fn apply_negative(files: &mut BTreeMap<String, String>, main: &str, neg: &Negative, m: &ModulePlan) -> bool {
+    match neg {
+        Negative::DropImport(k) => {
+            // only imports of the main file that are actually needed there (a `from` import, or a namespace
+            // that occurs in the text)
+            let all = import_lines(files);
+            let main_text = files.get(main).cloned().unwrap_or_default();
+            let imps: Vec<(String, usize, usize)> = all
+                .into_iter()
+                .filter(|(f, at, _)| {
+                    if f != main {
+                        return false;
+                    }
+                    let line = main_text.lines().nth(*at).unwrap_or("");
+                    if line.starts_with("from ") {
+                        return true;
+                    }
+                    let ns = match line.find(" as ") {
+                        Some(i) => line[i + 4..].trim().to_string(),
+                        None => syltmodel::print::module_ns(line.split_whitespace().nth(1).unwrap_or("")),
+                    };
+                    main_text.contains(&format!("{}.", ns))
+                })
+                .collect();
+            if imps.is_empty() {
+                return false;
+            }
+            let (file, at, n) = imps[k % imps.len()].clone();
+            let text = files.get(&file).unwrap().clone();
+            let mut lines: Vec<&str> = text.lines().collect();
+            for _ in 0..n {
+                lines.remove(at);
+            }
+            let mut t = lines.join("\n");
+            t.push('\n');
+            files.insert(file, t);
+            true
+        }
+        Negative::MissingName => {
+            if m.files.len() < 2 {
+                return false;
+            }
+            let path = syltmodel::print::import_path(&m.files[0], &m.files[1], false);
+            let t = files.get(main).unwrap().clone();
+            files.insert(main.to_string(), format!("from {} use zz_nope\n{}", path, t));
+            true
+        }
+        Negative::MissingFile => {
+            let t = files.get(main).unwrap().clone();
+            files.insert(main.to_string(), format!("use zz_missing_file\n{}", t));
+            true
+        }
+    }
+}
+
+impl Check for C12 {
+    type Case = Case;
     fn id(&self) -> &'static str {
         "C12"
     }
-    fn generate(&self, _u: &mut Unstructured, _tier: Tier) -> Option<u8> {
-        None
+    fn generate(&self, u: &mut Unstructured, tier: Tier) -> Option<Case> {
+        let mut t = Tape::new(u);
+        let prog = Gen::new(&mut t, crate::c11::toplevel_cfg(tier == Tier::Thorough)).program();
+        let modules = module_plan(&mut t, &prog);
+        let negative = if t.chance(1, 5) {
+            Some(match t.below(3) {
+                0 => Negative::MissingName,
+                1 => Negative::MissingFile,
+                _ => Negative::DropImport(t.below(16)),
+            })
+        } else {
+            None
+        };
+        let files = print_files(&prog, &plan_of(&modules)).files;
+        Some(Case { prog, modules, negative, files })
     }
-    fn evaluate(&self, _case: &u8, _labels: &mut Labels) -> Verdict {
-        Verdict::Discard("stub".into())
+
+    fn evaluate(&self, case: &Case, labels: &mut Labels) -> Verdict {
+        let pf = print_files(&case.prog, &plan_of(&case.modules));
+        let nfiles = pf.files.len();
+        labels.add(format!("files:{}", nfiles.min(5)));
+        for s in &pf.import_styles_used {
+            labels.add(format!("style:{}", s));
+        }
+        // import graph features
+        let imps = import_lines(&pf.files);
+        let mut imported_by: BTreeMap<String, usize> = BTreeMap::new();
+        let mut edges: Vec<(String, String)> = Vec::new();
+        for (file, at, _) in &imps {
+            let line = pf.files[file].lines().nth(*at).unwrap_or("").to_string();
+            let path = line.split_whitespace().nth(1).unwrap_or("").to_string();
+            *imported_by.entry(path.trim_start_matches('/').trim_end_matches('/').to_string()).or_default() += 1;
+            edges.push((file.clone(), path.clone()));
+            if line.contains(" as ") {
+                labels.add("alias");
+            }
+            if path.starts_with('/') {
+                labels.add("rooted-path");
+            }
+            if path.ends_with('/') {
+                labels.add("folder-import");
+            }
+        }
+        let diamond = imported_by.values().any(|c| *c >= 2);
+        if diamond {
+            labels.add("diamond");
+        }
+        // cycle: a imports b and b imports a (by module stem)
+        let stem = |f: &str| f.trim_start_matches("/p/").trim_end_matches(".sy").trim_end_matches("/exports").to_string();
+        let mut cycle = false;
+        for (a, pa) in &edges {
+            for (b, pb) in &edges {
+                let (sa, sb) = (stem(a), stem(b));
+                let (ta, tb) = (pa.trim_matches('/').to_string(), pb.trim_matches('/').to_string());
+                if sa != sb && sa.ends_with(&tb) && sb.ends_with(&ta) {
+                    cycle = true;
+                }
+            }
+        }
+        if cycle {
+            labels.add("import-cycle");
+        }
+
+        let project = Project { files: pf.files.clone(), main: pf.main.clone(), std: true, require: None };
+        let out = compile(&project);
+        let show = |files: &BTreeMap<String, String>| -> String {
+            files.iter().map(|(n, t)| format!("----- {} -----\n{}", n, t)).collect::<Vec<_>>().join("")
+        };
+        let lua = match &out {
+            Outcome::Accepted(b) => b.clone(),
+            Outcome::Rejected { errors, .. } => {
+                // is the single-file rendering accepted? then splitting changed acceptance
+                let single = render(&case.prog, &SurfacePlan::default());
+                if compile(&Project::single(single.text.clone())).is_accepted() {
+                    return Verdict::Violation {
+                        signature: format!("C12/split-rejected/{}:{}", errors[0].kind, message_class(&errors[0].message)),
+                        detail: format!(
+                            "the single-file program is accepted, the same program split over files is rejected: {}\n{}\n----- single file -----\n{}",
+                            out.short(),
+                            show(&pf.files),
+                            single.text
+                        ),
+                    };
+                }
+                labels.add(format!("base-rejected:{}:{}", errors[0].kind, errors[0].sub));
+                return Verdict::Discard("base-rejected".into());
+            }
+            Outcome::Panicked { .. } => return Verdict::Discard("compiler-panicked".into()),
+        };
+        labels.add("accepted");
+
+        if let Some(neg) = &case.negative {
+            let mut files = pf.files.clone();
+            if !apply_negative(&mut files, &pf.main, neg, &case.modules) {
+                return Verdict::Discard("negative-not-applicable".into());
+            }
+            labels.add(format!("negative:{}", match neg { Negative::DropImport(_) => "drop-import", Negative::MissingName => "missing-name", Negative::MissingFile => "missing-file" }));
+            let nout = compile(&Project { files: files.clone(), main: pf.main.clone(), std: true, require: None });
+            return match nout {
+                Outcome::Rejected { bytes_written, .. } => {
+                    if bytes_written > 0 {
+                        Verdict::Violation { signature: "C12/wrote-lua-on-error".into(), detail: "bytes written although rejected".into() }
+                    } else {
+                        Verdict::Pass { nontrivial: true }
+                    }
+                }
+                Outcome::Accepted(_) => Verdict::Violation {
+                    signature: format!("C12/negative-accepted/{}", match neg { Negative::DropImport(_) => "name-visible-without-import", Negative::MissingName => "import-of-missing-name", Negative::MissingFile => "import-of-missing-file" }),
+                    detail: format!("a project that must be rejected ({:?}) is accepted\n{}", neg, show(&files)),
+                },
+                Outcome::Panicked { .. } => Verdict::Discard("compiler-panicked".into()),
+            };
+        }
+
+        let r = reference(&case.prog, false);
+        if r.ambiguous {
+            return Verdict::Discard("order-ambiguous".into());
+        }
+        if r.nan_seen || r.unprintable_seen {
+            return Verdict::Discard("nan-or-unprintable".into());
+        }
+        let terminal = match &r.stop {
+            None => Terminal::Ok,
+            Some(Stop::AssertFailed) => Terminal::AssertFailed,
+            Some(Stop::Unreachable(uid)) => Terminal::Unreachable(*pf.unreachable_lines.get(uid).unwrap_or(&0) as u64),
+            Some(Stop::Budget(w)) => return Verdict::Discard(format!("ref-budget-{}", w)),
+            Some(Stop::Dyn(k, _)) => {
+                labels.add("ref-dynerror");
+                return Verdict::Discard(format!("ref-dynerror-{}", k));
+            }
+        };
+        let expected = Trace { lines: r.out.clone(), terminal };
+        match run_lua(&lua, r.steps * 60 + 400_000) {
+            LuaOutcome::LoadError { class, msg, .. } => Verdict::Violation {
+                signature: format!("C12/lua-load/{}", class),
+                detail: format!("emitted chunk does not load: {}\n{}", msg, show(&pf.files)),
+            },
+            LuaOutcome::Ran(t) => {
+                if let Terminal::OutOfBudget(_) = t.terminal {
+                    return Verdict::Discard("lua-budget".into());
+                }
+                if let Some((kind, what)) = diff_traces(&expected, &t) {
+                    return Verdict::Violation {
+                        signature: format!("C12/trace/{}", kind),
+                        detail: format!("the program split over files behaves differently from its meaning: {}\n{}", what, show(&pf.files)),
+                    };
+                }
+                Verdict::Pass { nontrivial: (nfiles >= 2 && pf.import_styles_used.len() >= 2) || cycle || diamond }
+            }
+        }
+    }
+
+    fn simplify_at(&self, case: &Case, idx: usize) -> Step<Case> {
+        // first: move every item of one file into main (fewer files); then structural shrinking that keeps
+        // the number of top-level items (so that file_of stays aligned)
+        let nf = case.modules.files.len();
+        if idx < nf.saturating_sub(1) {
+            let f = idx + 1;
+            if !case.modules.file_of.iter().any(|x| *x == f) {
+                return Step::Skip;
+            }
+            let mut m = case.modules.clone();
+            for x in m.file_of.iter_mut() {
+                if *x == f {
+                    *x = 0;
+                }
+            }
+            let files = print_files(&case.prog, &plan_of(&m)).files;
+            return Step::Candidate(Case { prog: case.prog.clone(), modules: m, negative: case.negative.clone(), files });
+        }
+        let pc = ProgCase { prog: case.prog.clone(), plan: SurfacePlan::default(), source: String::new() };
+        let n_items = |p: &Program| p.blobs.len() + p.enums.len() + p.globals.len();
+        match shrink_step(&pc, idx - nf.saturating_sub(1)) {
+            Step::End => Step::End,
+            Step::Skip => Step::Skip,
+            Step::Candidate(p) => {
+                let mut m = case.modules.clone();
+                if n_items(&p.prog) != n_items(&case.prog) {
+                    // a global was dropped: find which one by name and drop its slot
+                    let old: Vec<&str> = case.prog.globals.iter().map(|g| case.prog.var(g.var).name.as_str()).collect();
+                    let new: Vec<&str> = p.prog.globals.iter().map(|g| p.prog.var(g.var).name.as_str()).collect();
+                    let base = case.prog.blobs.len() + case.prog.enums.len();
+                    if let Some(k) = (0..old.len()).find(|k| new.get(*k) != Some(&old[*k])) {
+                        if base + k < m.file_of.len() {
+                            m.file_of.remove(base + k);
+                        }
+                    }
+                }
+                let files = print_files(&p.prog, &plan_of(&m)).files;
+                Step::Candidate(Case { prog: p.prog, modules: m, negative: case.negative.clone(), files })
+            }
+        }
+    }
+    fn sample(&self, case: &Case) -> serde_json::Value {
+        vcore::truncate_value(serde_json::json!({"files": print_files(&case.prog, &plan_of(&case.modules)).files, "negative": case.negative}), 1200)
     }
     fn rule(&self) -> String {
-        "stub".into()
+        "cases: a random well-typed program (top-level profile) whose blobs, enums and globals are partitioned over 1-5 files in up to \
+         three folder levels (main, libq, modw, sub/exports, sub/inner, sub/deep/leaf, other/exports, zeta; `start` stays in main); every \
+         cross-file reference to a global, type or variant constructor is written in the style drawn for that (from, to) pair: `use f` + \
+         `f.x`, `use f as ns` + `ns.x`, `from f use x`, `from f use x as y`; relative paths, `/`-rooted paths, folder imports of \
+         `exports.sy`, parenthesised multi-line import lists; import cycles and diamonds arise from the partition. Oracle: the project is \
+         accepted and its mini-Lua trace equals the reference interpreter's trace of the program (which is file-agnostic); a project \
+         rejected although its single-file rendering is accepted is a violation. 1 case in 5 is negative: one import statement is deleted, \
+         or `from m use zz_nope` / `use zz_missing_file` is added; oracle: rejected with zero bytes. non-trivial = >= 2 files and >= 2 \
+         import styles, or an import cycle or diamond, or a negative case; distinct by case hash"
+            .into()
     }
-    fn health(&self, _s: &vcore::Stats) -> Result<(), String> {
-        Err("check not built yet".into())
+    fn health(&self, s: &Stats) -> Result<(), String> {
+        if s.evaluations < 200 {
+            return Ok(());
+        }
+        if (s.label("accepted") as f64) < 0.5 * s.evaluations as f64 {
+            return Err(format!("only {} of {} projects are accepted", s.label("accepted"), s.evaluations));
+        }
+        for l in ["style:0", "style:1", "style:2", "style:3", "alias", "rooted-path", "folder-import", "diamond", "import-cycle"] {
+            if s.label(l) * 30 < s.evaluations {
+                return Err(format!("import feature {} is (nearly) absent: {} of {}", l, s.label(l), s.evaluations));
+            }
+        }
+        Ok(())
     }
 }
